@@ -238,9 +238,9 @@ func (c30) Gen(seed int64, tier string, emit func(any)) {
 			{Op: "trim"}, {Op: "read", Ns: i % 3, Key: "soon"}, {Op: "read", Ns: i % 3, Key: "later"}}})
 	}
 	r := rand.New(rand.NewSource(seed))
-	n := 500
+	n := 300
 	if thorough {
-		n = 6000
+		n = 3000
 	}
 	for i := 0; i < n; i++ {
 		nk := 2 + r.Intn(3)
@@ -253,7 +253,7 @@ func (c30) Gen(seed int64, tier string, emit func(any)) {
 			}
 		}
 		ops := []c30Op{}
-		m := 4 + r.Intn(22)
+		m := 4 + r.Intn(15)
 		for j := 0; j < m; j++ {
 			switch k := r.Intn(20); {
 			case k < 8:
